@@ -118,12 +118,15 @@ def rule_order_wrapper(ctx: Ctx) -> None:
     ctx.touch(m, fn)
     rets = [r for r in ast.walk(fn) if isinstance(r, ast.Return)]
     for r in rets:
+        if isinstance(r.value, ast.Call) and r.value.args and not (isinstance(r.value.func, ast.Name) and r.value.func.id in ("list", "tuple", "reversed")) \
+                and any(isinstance(x, ast.Subscript) and isinstance(x.slice, ast.Slice) and x.slice.step is not None and norm(x.slice.step) == "-1" for x in ast.walk(r.value)):
+            raise AnalysisError(f"OneQubitGateWrapper.unwrap: the reversed list is post-processed by `{short(r.value.func)}` before it is returned; not decided")
         b, d = order.iter_direction(r.value)
         built_fwd = True
         for n in ast.walk(fn):
             if isinstance(n, ast.Assign) and norm(n.targets[0]) == b and isinstance(n.value, ast.ListComp):
                 _, dd = order.iter_direction(n.value.generators[0].iter)
-                built_fwd = built_fwd and dd == 1 and "self.operations[" in norm(n.value.elt)
+                built_fwd = built_fwd and dd == 1 and ("self.operations[" in norm(n.value.elt) or "zip(self.operations" in norm(n.value.generators[0].iter))
         if d == -1 and built_fwd:
             ctx.ok("order.wrapper", m, r, what="unwrap returns the reversed list (application order)")
         else:
